@@ -408,7 +408,11 @@ func triage(self string, o DriverOpts, e Engine, base []string, wr *workerRun, n
 	args = append(append([]string{}, base...), "--shard", "0", "--of", "1", "--from", fmt.Sprint(unit), "--to", fmt.Sprint(unit+1), "--careful", "--careful-file", cf)
 	spawnWorker(self, o, args, alone)
 	if alone.err == nil {
-		return triageResult{kind: "infra", why: fmt.Sprintf("death at unit %d did not reproduce alone", unit)}
+		if oomRe.MatchString(careful.stderr) {
+			// memory exhaustion that depends on the garbage earlier runs left behind
+			return triageResult{kind: "excepted", why: "out_of_memory_not_reproducible_in_a_fresh_process", msg: Msg{Unit: unit}, next: unit + 1}
+		}
+		return triageResult{kind: "infra", why: fmt.Sprintf("death at unit %d did not reproduce alone:\n%s", unit, careful.stderr)}
 	}
 	if b, err := os.ReadFile(cf); err == nil {
 		planBytes = b
